@@ -76,6 +76,11 @@ pub struct Hist<'c> {
 	pub fresh_key_counter: u64,
 	/// C11: reader handles obtained but not (yet) locked
 	pub handles: Vec<(Vec<u8>, std::sync::Arc<LockOf>)>,
+	/// two-worker schedules: some pipeline steps run with steps of other workers nested at a
+	/// hand-over site (`dbutil::do_step_nested`)
+	pub nesting: bool,
+	/// reads against the model from INSIDE pipeline steps (at the library's hand-over sites)
+	pub midstep_reads: bool,
 }
 
 pub fn run_case(ctx: &Ctx, rep: &mut Report, profile: Profile, case_seed: u64, variant: u64) {
@@ -274,6 +279,8 @@ impl<'c> Hist<'c> {
 			f4_probe: profile == Profile::C11 && variant % 3 == 0,
 			fresh_key_counter: 0,
 			handles: vec![],
+			nesting: profile != Profile::C11 && (variant / 2) % 3 == 1,
+			midstep_reads: profile != Profile::C11 && variant % 2 == 0,
 		}
 	}
 
@@ -523,9 +530,36 @@ impl<'c> Hist<'c> {
 
 	fn pipeline(&mut self, db: &Db, rep: &mut Report, step: Step) -> R<()> {
 		let before = db.verif_status();
-		self.log(format!("{} (shape {})", step.name(), shape(&before)));
-		if let Err(e) = do_step(db, step) {
-			return fail(format!("failure=step_error;step={}", step.name()), format!("{} returned {}", step.name(), e))
+		let nest = if self.nesting && self.rng.chance(1, 5) { pv::dbutil::random_nest(&mut self.rng, step) } else { None };
+		let mut inner_logged = 0usize;
+		if let Some(n) = &nest {
+			self.log(format!("{}{} (shape {})", step.name(), n.show(), shape(&before)));
+			let (r, out) = pv::dbutil::do_step_nested(db, step, n);
+			if let Err(e) = r {
+				return fail(format!("failure=step_error;step={}", step.name()), format!("{}{} returned {}", step.name(), n.show(), e))
+			}
+			if let Some(e) = out.inner_err {
+				return fail(format!("failure=step_error;step={}", step.name()), format!("inner step of {}{} returned {}", step.name(), n.show(), e))
+			}
+			if out.fired {
+				rep.count("nested_schedules_fired", 1);
+				rep.seen(format!("nest|{}|{}|{}", step.name(), n.site, n.inner.iter().map(|s| s.name()).collect::<Vec<_>>().join("+")));
+				if step != Step::ProcessCommits {
+					// commits written to the log by inner process_commits steps (no tree guard is
+					// held in these profiles, so nothing is postponed)
+					inner_logged = before.queued_commits.saturating_sub(db.verif_status().queued_commits);
+				}
+			}
+		} else {
+			self.log(format!("{} (shape {})", step.name(), shape(&before)));
+			let r = if self.midstep_reads { self.step_with_midstep_reads(db, rep, step)? } else { do_step(db, step) };
+			if let Err(e) = r {
+				return fail(format!("failure=step_error;step={}", step.name()), format!("{} returned {}", step.name(), e))
+			}
+		}
+		for _ in 0..inner_logged {
+			self.mirror.pop_front();
+			rep.count("commits_logged", 1);
 		}
 		let after = db.verif_status();
 		if step == Step::ProcessReindex && after.next_record_id > before.next_record_id {
@@ -568,6 +602,33 @@ impl<'c> Hist<'c> {
 			}
 		}
 		Ok(())
+	}
+
+	/// Run one pipeline step with a yield hook that, at up to three of the hand-over sites the
+	/// step passes, reads every tracked key of every key-value column and compares with the model
+	/// (what a reader thread would see at that very moment: C01 "no matter how far each commit has
+	/// progressed", C05 "latest at some moment of the read"; the model is exact here because the
+	/// harness is the only client). The hook runs on this thread, inside the library call.
+	fn step_with_midstep_reads(&mut self, db: &Db, rep: &mut Report, step: Step) -> R<parity_db::Result<()>> {
+		let budget = 3;
+		let skip = self.rng.below(4) as u32;
+		MID.with(|m| {
+			*m.borrow_mut() = Some(MidCtx { hist: self as *mut Hist as *mut (), db: db as *const Db, rep: rep as *mut Report, budget, skip, failure: None, reads: 0 });
+		});
+		parity_db::verif::set_yield_hook(Some(mid_hook));
+		let r = do_step(db, step);
+		parity_db::verif::set_yield_hook(None);
+		let ctx = MID.with(|m| m.borrow_mut().take());
+		if let Some(c) = ctx {
+			if c.reads > 0 {
+				rep.count("midstep_read_points", c.reads as u64);
+				rep.seen(format!("mid|{}", step.name()));
+			}
+			if let Some((site, f)) = c.failure {
+				return Err(Fail { sig: format!("{};inside={};site={}", f.sig, step.name(), site), detail: format!("read from inside {} at hand-over site {}: {}", step.name(), site, f.detail) })
+			}
+		}
+		Ok(r)
 	}
 
 	// ------------------------------------------------------------------ commits
@@ -912,10 +973,37 @@ impl<'c> Hist<'c> {
 				let n = *self.rng.pick(&[256usize, 257, 300, 511, 512]);
 				self.tree_nonce += 1;
 				let nonce = self.tree_nonce;
-				let spec = TreeSpec {
+				let wide = TreeSpec {
 					data: nonce.to_le_bytes().to_vec(),
 					children: (0..n).map(|i| ChildSpec::New(TreeSpec::leaf(vec![(i % 251) as u8; 3]))).collect(),
 				};
+				// the too-wide node sits at the root or anywhere below it: wrapped 0-3 times into a
+				// parent that holds it at the first, a middle or the last position among other new
+				// (and existing) children
+				let existing: Vec<u64> = tm.addressable();
+				let mut spec = wide;
+				for _ in 0..self.rng.below(4) {
+					let sibs = self.rng.range(0, 4) as usize;
+					let at = self.rng.usize(sibs + 1);
+					let mut children = vec![];
+					for i in 0..=sibs {
+						if i == at {
+							children.push(ChildSpec::New(spec.clone()));
+						} else if !existing.is_empty() && self.rng.chance(1, 3) {
+							children.push(ChildSpec::Existing(*self.rng.pick(&existing)));
+						} else {
+							self.tree_nonce += 1;
+							let mut leaf = TreeSpec::leaf(self.tree_nonce.to_le_bytes().to_vec());
+							if self.rng.chance(1, 3) {
+								self.tree_nonce += 1;
+								leaf.children.push(ChildSpec::New(TreeSpec::leaf(self.tree_nonce.to_le_bytes().to_vec())));
+							}
+							children.push(ChildSpec::New(leaf));
+						}
+					}
+					self.tree_nonce += 1;
+					spec = TreeSpec { data: self.tree_nonce.to_le_bytes().to_vec(), children };
+				}
 				(Op::InsertTree(c, k, spec), "unrepresentable_fanout")
 			},
 			_ => {
@@ -1744,4 +1832,70 @@ pub fn adversarial_pool(rng: &mut Rng, n: usize, strong: bool) -> (Vec<Vec<u8>>,
 		}
 	}
 	(keys, groups)
+}
+
+// ------------------------------------------------------------------------------------------
+// reads from inside pipeline steps
+
+struct MidCtx {
+	hist: *mut (),
+	db: *const Db,
+	rep: *mut Report,
+	budget: u32,
+	skip: u32,
+	failure: Option<(u32, Fail)>,
+	reads: u32,
+}
+
+thread_local! {
+	static MID: std::cell::RefCell<Option<MidCtx>> = const { std::cell::RefCell::new(None) };
+}
+
+fn mid_hook(site: u32) {
+	// sites inside `commit` (1, 16), the wait/signal pair (13, 14) and the site that holds the
+	// commit-queue lock (9) are not read points
+	if matches!(site, 1 | 9 | 13 | 14 | 16) {
+		return
+	}
+	let (hist, db, rep) = match MID.with(|m| {
+		let mut g = m.borrow_mut();
+		match g.as_mut() {
+			Some(c) if c.failure.is_none() && c.budget > 0 => {
+				if c.skip > 0 {
+					c.skip -= 1;
+					return None
+				}
+				c.budget -= 1;
+				c.reads += 1;
+				Some((c.hist, c.db, c.rep))
+			},
+			_ => None,
+		}
+	}) {
+		Some(x) => x,
+		None => return,
+	};
+	// SAFETY: the pointers were made from the `&mut Hist`, `&Db` and `&mut Report` of the
+	// enclosing `step_with_midstep_reads` call on this thread, which does not touch them while
+	// the library call is running.
+	let hist: &mut Hist = unsafe { &mut *(hist as *mut Hist) };
+	let db: &Db = unsafe { &*db };
+	let rep: &mut Report = unsafe { &mut *rep };
+	let mut res = Ok(());
+	for ci in 0..hist.cfg.cols.len() {
+		if hist.cfg.cols[ci].multitree {
+			continue
+		}
+		res = hist.validate_kv(db, rep, ci as u8, false);
+		if res.is_err() {
+			break
+		}
+	}
+	if let Err(f) = res {
+		MID.with(|m| {
+			if let Some(c) = m.borrow_mut().as_mut() {
+				c.failure = Some((site, f));
+			}
+		});
+	}
 }
